@@ -21,7 +21,7 @@ func init() {
 			"R05a.i every return of a literal io.EOF in their Read is dominated by an edge on which the unit source reported exhaustion (false edge of the `more` result of a (bool, error) source call, or true edge of `err == io.EOF` on a source call's error) and by an edge implying len(stack) <= 1; every return dominated by a stack-exhausted edge but not by an exhaustion edge returns only typed (fatal) errors; " +
 			"R05a.ii every implementation of the (bool, error) unit-source method returns true, or len(buf) > 0 on its own line buffer, or false only together with a non-nil error; " +
 			"R05a.iii the flags constant passed to go-corelib ios.NewScannerByDelim* contains ScannerByDelimFlagEofAsDelim (otherwise the split function discards a final unterminated token); " +
-			"R05b the error of the matcher's advance function (method func() error of a hierarchical reader) is tested and returned at every call site, except discarded calls that are dominated by `occurred >= max` while every error return of the advance function is dominated by `occurred < min` on the same fields/accessors, which is a proof only if min <= max: for every declaration type behind those accessors a function statically reachable from the package's ValidateSchema compares min() > max() on the same value and returns a non-nil error on that edge (or both accessors are constants with min <= max); " +
+			"R05b the error of the matcher's advance function (method func() error of a hierarchical reader) is tested and returned at every call site, except discarded calls that are dominated by `occurred >= max` while every error return of the advance function is dominated by `occurred < min` on the same fields/accessors, which is a proof only if min <= max: for every declaration type behind those accessors a function reachable from the package's ValidateSchema (statically resolved calls; calls of function values - tables of validator method values - resolved through the VTA call graph) compares min() > max() on the same value and returns a non-nil error on that edge (or both accessors are constants with min <= max); " +
 			"R05c the error-class analysis (A3, with IsErrX narrowing and the RecReader wiring of each package) shows that Read of every format reader built on a hierarchical reader returns only NIL, io.EOF or its own fatal type(s) (the types its IsContinuableError classifies non-continuable).",
 		NotDecided: "that the greedy matcher agrees with the declarative meaning of min/max/group (which instance a unit is attached to, occurrence counting, completeness of a target) — a state-machine property over all hierarchies; that `more == false` / io.EOF from the unit source is truthful beyond R05a.ii/iii (buffer bookkeeping inside readLine, bufio.Scanner internals); units consumed twice.",
 		Trusted:    append([]string{"bufio.Scanner discards, at end of input, data for which the split function returns (0, nil, nil) (the split function's own behaviour is re-derived from the go-corelib source on every run)"}, commonTrusted...),
@@ -1199,7 +1199,7 @@ func c05ConstResult(fn *ssa.Function) (int64, bool) {
 }
 
 func (x *c05ctx) checkValidated(d *types.Named, minName, maxName, key string) {
-	c, e := x.c, x.e
+	c := x.c
 	minFn, maxFn := ecMethod(c, d, minName), ecMethod(c, d, maxName)
 	if minFn == nil || maxFn == nil || minFn.Blocks == nil || maxFn.Blocks == nil {
 		c.Unresolved("R05b", key, "accessor bodies not found")
@@ -1220,21 +1220,61 @@ func (x *c05ctx) checkValidated(d *types.Named, minName, maxName, key string) {
 			work = append(work, f)
 		}
 	}
-	for len(work) > 0 {
-		f := work[len(work)-1]
-		work = work[:len(work)-1]
-		if reach[f] || f.Blocks == nil {
-			continue
-		}
-		reach[f] = true
-		work = append(work, f.AnonFuncs...)
-		for _, ci := range core.Calls(f) {
-			if g := ci.Common().StaticCallee(); g != nil && core.InRepo(core.FuncPkg(g)) {
-				work = append(work, g)
+	// closure over statically resolved calls; with dyn, calls of function values (method values / closures kept in
+	// variables, slices of checks) are resolved through the VTA call graph as well
+	grow := func(dyn bool) {
+		for len(work) > 0 {
+			f := work[len(work)-1]
+			work = work[:len(work)-1]
+			if reach[f] || f.Blocks == nil {
+				continue
+			}
+			reach[f] = true
+			work = append(work, f.AnonFuncs...)
+			for _, ci := range core.Calls(f) {
+				if g := ci.Common().StaticCallee(); g != nil {
+					if core.InRepo(core.FuncPkg(g)) {
+						work = append(work, g)
+					}
+					continue
+				}
+				if !dyn || ci.Common().IsInvoke() {
+					continue
+				}
+				for _, g := range c.Callees(ci) {
+					if g != nil && core.InRepo(core.FuncPkg(g)) {
+						work = append(work, g)
+					}
+				}
 			}
 		}
 	}
+	grow(false)
+	if x.rejectsMinGtMax(reach, nil, minFn, maxFn, key) {
+		return
+	}
+	// the validators may be run from a table of function values: follow those calls too
+	static := map[*ssa.Function]bool{}
+	for f := range reach {
+		static[f] = true
+		work = append(work, f)
+	}
+	reach = map[*ssa.Function]bool{}
+	grow(true)
+	if x.rejectsMinGtMax(reach, static, minFn, maxFn, key) {
+		return
+	}
+	c.Bad("R05b", key, minFn.Pos(), "no function reachable from this package's ValidateSchema rejects "+minName+"() > "+maxName+"() with an error: the discarded matcher error in the done-function can then occur (an unmet minimum goes unreported)")
+}
+
+// rejectsMinGtMax: some function of reach (not in skip) compares minFn(v) > maxFn(v) on the same value and returns a
+// non-nil error on that edge; records the OK obligation.
+func (x *c05ctx) rejectsMinGtMax(reach, skip map[*ssa.Function]bool, minFn, maxFn *ssa.Function, key string) bool {
+	c, e := x.c, x.e
 	for _, f := range core.SortedFuncs(reach) {
+		if skip[f] {
+			continue
+		}
 		for _, b := range f.Blocks {
 			if len(b.Succs) != 2 {
 				continue
@@ -1297,13 +1337,13 @@ func (x *c05ctx) checkValidated(d *types.Named, minName, maxName, key string) {
 					}
 					if okRet && n > 0 {
 						c.OK("R05b", key, core.InstrPos(ifi), "rejected at load time in "+core.FuncKey(f)+" (reachable from ValidateSchema)")
-						return
+						return true
 					}
 				}
 			}
 		}
 	}
-	c.Bad("R05b", key, minFn.Pos(), "no function reachable from this package's ValidateSchema rejects "+minName+"() > "+maxName+"() with an error: the discarded matcher error in the done-function can then occur (an unmet minimum goes unreported)")
+	return false
 }
 
 // ---------------------------------------------------------------- R05c
